@@ -304,6 +304,18 @@ def generate() -> str:
               "eigenvalues = tuple((complex(i) for i in -beta / alpha))"):
         if _norm(s) not in oq:
             raise TranslatorError(f"_solve_ordqz: expected `{s}`")
+    # ---- _solve_measurement_equations: the statements modelled by model/Ford.v solve_measurement, literally
+    #      (G = columns after the leads; Z, H, D = -F \ (G, J, H~) with F itself -- not its transpose --; Za = Z Ua)
+    sme = [ast.unparse(x) for x in _strip_doc(_find(sol.body, "_solve_measurement_equations"))]
+    want = ["num_forwards = descriptor.get_num_forwards()", "G = system.G[:, num_forwards:]",
+            "Z = left_div(-system.F, G)", "H = left_div(-system.F, system.J)", "D = left_div(-system.F, system.H)",
+            "Z = clip(Z) if clip is not None else Z", "Za = Z @ Ua", "return (Z, H, D, Za)"]
+    if sme != [_norm(w) for w in want]:
+        raise TranslatorError("_solve_measurement_equations: statements differ from the modelled ones "
+                              f"(model/Ford.v solve_measurement): {sme}")
+    ld = [ast.unparse(x) for x in _strip_doc(_find(sol.body, "left_div"))]
+    if ld != [_norm("return _np.linalg.lstsq(A, B, rcond=None)[0]")]:
+        raise TranslatorError(f"left_div: expected the least-squares solve of A X = B (modelled as inv(A) @ B), found {ld}")
     # ---- token-level scalar rules
     fn = _find(desc.body, "_get_num_forwards")
     ret = _strip_doc(fn)[-1]
